@@ -18,7 +18,9 @@ RULE = (
     "compute_online_moments[_basic], downsample_1d/2d_mean_parallel) on inputs whose arithmetic is exact (uint8, "
     "small-integer float32, dyadic weights). Oracle: output bit-identical across all (t,k,repetition), equal to a NumPy "
     "reference, and (small float32 cases) to the kernel's own .py_func. Mismatches are collected, not raised inside "
-    "Hypothesis, so a non-reproducing failure is still reported. Non-trivial = t>1 with more loop iterations than "
+    "Hypothesis, so a non-reproducing failure is still reported. api: eleven public streaming methods (collapse, bandpass, read_chan, dedisperse, compute_stats, downsample, subband, "
+    "apply_channel_mask, invert_freq, remove_zerodm, extract_chans) on multi-block files under six thread counts must give "
+    "identical bytes (thread-count dependence may sit in the wrapper that sizes the blocks). Non-trivial = t>1 with more loop iterations than "
     "threads; distinct by canonical case JSON."
 )
 ASSUMPTIONS = [
@@ -311,8 +313,112 @@ def enum_cases(tier):
     return out
 
 
+# ------------------------------------------------------------------ the streaming methods that drive the kernels
+
+API_OPS = ["collapse", "bandpass", "read_chan", "dedisperse", "compute_stats", "downsample", "subband", "apply_channel_mask",
+           "invert_freq", "remove_zerodm", "extract_chans"]
+
+
+def enum_api(tier):
+    """(method, file, gulp, parameters) cases: the public streaming methods that size the blocks handed to the kernels.
+    Thread-count dependence may sit in that wrapper as well as in a kernel."""
+    rng = np.random.default_rng(seed_for(int(os.environ.get("VERIF_SEED", "1")), PROPERTY, "api", 0) % (2**32))
+    reps = 3 if tier == "quick" else 40
+    out = []
+    for op in API_OPS:
+        for r in range(reps):
+            nch = int(rng.choice([1, 3, 4, 8, 16]))
+            n = int(rng.integers(60, 400))
+            out.append({"op": op, "nbits": int(rng.choice([8, 8, 32])), "nchans": nch, "split": [n] if r % 2 else [n // 3, n - n // 3],
+                        "seed": int(rng.integers(0, 2**31 - 1)), "gulp": int(rng.choice([7, 16, 30, 64, 100, n + 5])), "tf": int(rng.choice([1, 2, 3, 5])),
+                        "md": int(rng.integers(0, 12)), "start": int(rng.choice([0, 0, 5]))})
+    return out
+
+
+def run_api(case, t, outdir, paths):
+    import numba
+    from sigpyproc.readers import FilReader
+
+    numba.set_num_threads(min(t, numba.config.NUMBA_NUM_THREADS))
+    numba.set_parallel_chunksize(0)
+    rd = FilReader(paths)
+    nch = case["nchans"]
+    kw = {"gulp": case["gulp"], "start": case["start"], "quiet": True, "description": "v"}
+    op = case["op"]
+    o = os.path.join(outdir, f"t{t}.out")
+    flo = 1400.0 + (nch - 1) * -10.0
+    dm = 0.0 if (nch == 1 or case["md"] == 0) else case["md"] * 1e-3 / (4.148808e3 * (flo**-2 - 1400.0**-2))
+
+    def fbytes(path):
+        with open(path, "rb") as fp:
+            return fp.read()
+
+    if op == "collapse":
+        return np.asarray(rd.collapse(**kw).data).tobytes()
+    if op == "bandpass":
+        return np.asarray(rd.bandpass(**kw).data).tobytes()
+    if op == "read_chan":
+        return np.asarray(rd.read_chan(nch - 1, **kw).data).tobytes()
+    if op == "dedisperse":
+        return np.asarray(rd.dedisperse(dm, **kw).data).tobytes()
+    if op == "compute_stats":
+        rd.compute_stats(**kw)
+        st_ = rd.chan_stats
+        return b"".join(np.asarray(getattr(st_, a)).tobytes() for a in ("mean", "var", "skew", "kurtosis", "maxima", "minima"))
+    if op == "downsample":
+        ffs = [f for f in range(1, nch + 1) if nch % f == 0 and ((nch // f) * case["nbits"]) % 8 == 0]
+        return fbytes(rd.downsample(case["tf"], ffs[case["seed"] % len(ffs)], o, **kw))
+    if op == "subband":
+        subs = [k for k in range(1, nch + 1) if nch % k == 0]
+        return fbytes(rd.subband(dm, subs[case["seed"] % len(subs)], o, **kw))
+    if op == "apply_channel_mask":
+        mask = np.array([(case["seed"] >> i) & 1 for i in range(nch)], dtype=bool)
+        return fbytes(rd.apply_channel_mask(mask, 3, o, **kw))
+    if op == "invert_freq":
+        return fbytes(rd.invert_freq(o, **kw))
+    if op == "remove_zerodm":
+        return fbytes(rd.remove_zerodm(o, **kw))
+    names = rd.extract_chans(np.array([0, nch - 1]) if nch > 1 else None, os.path.join(outdir, f"t{t}c"), batch_size=1, **kw)
+    return b"".join(fbytes(nm) for nm in names)
+
+
+def check_api(case, ctx):
+    import numba
+
+    from vlib import sigfile
+
+    d = ctx.fresh_dir()
+    rng = np.random.default_rng(case["seed"])
+    n = sum(case["split"])
+    if case["nbits"] == 32:
+        D = rng.integers(-100, 101, size=(n, case["nchans"])).astype(np.float32)
+    else:
+        D = rng.integers(64, 192, size=(n, case["nchans"])).astype(np.uint8)
+    paths, _, _ = sigfile.write_stream(d, D, case["nbits"], case["split"], fch1=1400.0, foff=-10.0)
+    maxt = numba.config.NUMBA_NUM_THREADS
+    others = list(range(3, maxt))
+    rot = case["seed"] % max(1, len(others))
+    picked = sorted({1, 2, maxt} | ({others[(rot + j * 5) % len(others)] for j in range(3)} if others else set()))
+    ctxt = f"{case}"
+    base = None
+    for t in picked:
+        try:
+            got = run_api(case, t, d, paths)
+        except Exception as exc:  # noqa: BLE001
+            raise Violation(f"api:{case['op']}:raised:{type(exc).__name__}", f"{ctxt} threads={t}: {exc!r}") from exc
+        if base is None:
+            base = got
+        elif got != base:
+            raise Violation(f"api:thread-count-dependent:{case['op']}", f"{ctxt}: the result with {t} threads ({len(got)} bytes) differs from the single-thread "
+                            f"result ({len(base)} bytes)")
+    numba.set_num_threads(maxt)
+    return Info(case["gulp"] < n, (case["op"], f"{case['nbits']}bit") + tuple(f"threads={t}" for t in picked))
+
+
 def subchecks(tier):
     return [
         SubCheck("schedules", check, enumerate=enum_cases, exhaustive=False, threads=16,
                  shards={"quick": 1, "thorough": 1}, budget_s={"quick": 150, "thorough": 3000}),
+        SubCheck("api", check_api, enumerate=enum_api, exhaustive=False, threads=16,
+                 shards={"quick": 1, "thorough": 1}, budget_s={"quick": 120, "thorough": 1500}),
     ]
